@@ -5,9 +5,8 @@ import SeqIoModel.Proofs.FastqStream
 # C20 – iterators obey the iterator contracts at every step
 
 `SeqLinesIt` mirrors `Zip<slice::Iter<usize>, Skip<slice::Iter<usize>>>` step by step (what
-`SeqLines` wraps after the repair of `SeqLines::len`).  The record-set and owned-record
-iterators are thin wrappers (`slice::Iter` + `Take`, `Reader::next` + `map`) whose contracts are
-checked by the correspondence run only.
+`SeqLines` wraps after the repair of `SeqLines::len`).  The record-set iterators (`slice::Iter` + `Take`) are modelled as a forward cursor over the stored
+positions, the owned-record iterators as repeated `Reader::next`.
 -/
 
 namespace SeqIo.Thm.C20
@@ -89,5 +88,61 @@ theorem fastq_records_iter_fused (inp : List UInt8) (cap : Nat) (hcap : 3 ≤ ca
   intro h
   obtain ⟨x, _, hx⟩ := List.mem_map.mp h
   split at hx <;> cases hx
+
+/-! ## the record-set iterators: `slice::Iter` (+ `Take(npos)` for FASTA) over the stored positions -/
+
+/-- forward cursor over a list – the model of `slice::Iter` as the record-set iterators use it -/
+def cursorRun {α : Type} : List α → Nat → List (Option α)
+  | _, 0 => []
+  | [], k + 1 => none :: cursorRun [] k
+  | x :: xs, k + 1 => some x :: cursorRun xs k
+
+theorem take_replicate_succ {α : Type} (l : List α) (d : α) (k : Nat) :
+    (l ++ List.replicate (k + 1) d).take k = (l ++ List.replicate k d).take k := by
+  rw [List.replicate_succ', ← List.append_assoc]
+  exact List.take_append_of_le_length (l₁ := l ++ List.replicate k d) (by simp)
+
+theorem none_not_mem_map_some {α : Type} (l : List α) : (none : Option α) ∉ l.map some := by
+  intro h
+  obtain ⟨x, _, hx⟩ := List.mem_map.mp h
+  cases hx
+
+theorem cursorRun_eq {α : Type} (l : List α) (k : Nat) :
+    cursorRun l k = (l.map some ++ List.replicate k none).take k := by
+  induction k generalizing l with
+  | zero => simp [cursorRun]
+  | succ k ih =>
+    cases l with
+    | nil =>
+      simp only [cursorRun, ih, List.map_nil, List.nil_append, List.take_replicate, Nat.min_self]
+      rfl
+    | cons x xs =>
+      simp only [cursorRun, ih, List.map_cons, List.cons_append, List.take_succ_cons]
+      rw [take_replicate_succ]
+
+/-- Iterating over a FASTA record set shows exactly the first `npos` stored positions (stale positions
+of an earlier, larger batch are never shown), each once, in order, and then reports the end for
+ever; the remaining length after `i` steps is `npos' - i` where `npos' = min npos positions.length`. -/
+theorem fasta_record_set_iter_contract (rs : Fasta.RecordSet) (k : Nat) :
+    cursorRun (rs.positions.take rs.npos) k =
+      ((rs.positions.take rs.npos).map some ++ List.replicate k none).take k ∧
+    (∀ i j, i ≤ j → j < k → (cursorRun (rs.positions.take rs.npos) k)[i]? = some none →
+      (cursorRun (rs.positions.take rs.npos) k)[j]? = some none) := by
+  refine ⟨cursorRun_eq _ k, ?_⟩
+  intro i j hij hj hi
+  rw [cursorRun_eq] at hi ⊢
+  exact take_append_replicate_fused _ none (none_not_mem_map_some _) k i j hij hj hi
+
+/-- FASTQ record sets: the same over all stored positions -/
+theorem fastq_record_set_iter_contract (rs : Fastq.RecordSet) (k : Nat) :
+    cursorRun rs.positions k = (rs.positions.map some ++ List.replicate k none).take k ∧
+    (∀ i j, i ≤ j → j < k → (cursorRun rs.positions k)[i]? = some none →
+      (cursorRun rs.positions k)[j]? = some none) := by
+  refine ⟨cursorRun_eq _ k, ?_⟩
+  intro i j hij hj hi
+  rw [cursorRun_eq] at hi ⊢
+  exact take_append_replicate_fused _ none (none_not_mem_map_some _) k i j hij hj hi
+
+example : cursorRun [1, 2] 4 = [some 1, some 2, none, none] := by decide
 
 end SeqIo.Thm.C20
